@@ -55,8 +55,9 @@ TRUSTED = [
     "SSLEOFError) — validated, not proved, by the offset sweep against real OpenSSL",
 ]
 ASSUMPTIONS = [
-    "the SSLContext has OP_IGNORE_UNEXPECTED_EOF cleared (the clients do this for ssl=True only); with the option "
-    "set OpenSSL itself reports a truncation as a close-notify and no transport can tell the difference",
+    "the SSLContext does not have OP_IGNORE_UNEXPECTED_EOF set (clear by default on CPython 3.12.1; the clients clear "
+    "it explicitly for ssl=True); with the option set OpenSSL itself reports a truncation as a close-notify and no "
+    "transport can tell the difference",
     "bufsize > 0 for recv",
 ]
 
@@ -810,8 +811,8 @@ K_DEFAULT_CLIENT, K_DEFAULT_FLAG = 2, 3
 
 
 class _RecDefaultContext(ssl.SSLContext):
-    """What the patched ssl.create_default_context() returns: a genuine SSLContext (Python's defaults, so
-    OP_IGNORE_UNEXPECTED_EOF is SET) that trusts the test certificate and records raw SSL outcomes."""
+    """What the patched ssl.create_default_context() returns: a genuine SSLContext with OP_IGNORE_UNEXPECTED_EOF SET
+    (see _default_context_factory) that trusts the test certificate and records raw SSL outcomes."""
 
     def wrap_socket(self, sock, **kw):
         s = super().wrap_socket(sock, **kw)
@@ -822,6 +823,9 @@ class _RecDefaultContext(ssl.SSLContext):
 def _default_context_factory(holder, log, ver=None):
     def create_default_context(*a, **k):
         ctx = _RecDefaultContext(ssl.PROTOCOL_TLS_CLIENT)
+        # CPython 3.12.1 leaves the option clear by default; interpreters/distributions whose default context has it
+        # set are the reason the clients clear it, so the stand-in default context has it SET
+        ctx.options |= ssl.OP_IGNORE_UNEXPECTED_EOF
         ctx.load_verify_locations(K.CERT)
         if ver is not None:
             ctx.minimum_version = ctx.maximum_version = K._VER[ver]
@@ -1090,7 +1094,7 @@ def _real_sweep(kind, thorough, rng):
                                          "client" if client else "server", "std" if std else "nonstd",
                                          "truncated" if trunc else "clean-close", "near-record-boundary" if near else "mid-record",
                                          "recv_into" if plan is PLAN_INTO else "recv", "real-openssl"])
-                # OP_IGNORE_UNEXPECTED_EOF set on the context (Python's default for a bare SSLContext)
+                # OP_IGNORE_UNEXPECTED_EOF explicitly set on the context: outside the property's assumption, kept for the correspondence
                 for cut in sorted(bounds)[:: 1 if thorough else 2]:
                     for std in (1, 0):
                         for c in (cut, cut - 1):
@@ -1309,10 +1313,12 @@ def oracle(inp):
     if not trunc and hs_ok and recv_results and not eofs:
         return "complete stream with close-notify did not end with a clean end-of-stream"
     # closing an open transport in standard-compatible mode sends a close-notify
-    if std and hs_ok and not trunc and cfg.get("cut") is None and any(op[0] == OP_CLOSE for op in ops):
+    open_at_close = (hs_ok and cfg.get("cut") is None and not any(r_[1] == 1 or (r_[1] == 0 and r_[2] == 0) for r_ in recv_results)
+                     and not any(op[0] == OP_SEND and r_[1] == 1 for op, r_ in zip(ops, results)))
+    if std and open_at_close and any(op[0] == OP_CLOSE for op in ops):
         close_res = [res for op, res in zip(ops, results) if op[0] == OP_CLOSE]
-        if close_res and close_res[0][1] == 0 and not info["cn_seen"] and not cfg.get("silent") and info.get("err") is None:
-            return "standard-compatible close did not deliver a close-notify to the peer"
+        if close_res and close_res[0][1] == 0 and not info["cn_seen"] and info.get("err") is None:
+            return "standard-compatible close of an open transport did not deliver a close-notify to the peer"
     return None
 
 
